@@ -232,8 +232,9 @@ def check(repo: Repo, rep: Report) -> None:
     nows = [s for s in sites(imap) if isinstance(s.node, ast.Assign) and isinstance(s.node.value, ast.Attribute) and s.node.value.attr == "now"
             and u(s.node.value.value) in scheds]
     now = u(nows[0].node.targets[0]) if nows else "?now"
-    span = [s for s in sites(imap) if isinstance(s.node, ast.Assign) and u(s.node.value) == f"{now} - {last}"]
-    upd = [s for s in sites(imap) if isinstance(s.node, ast.Assign) and u(s.node.targets[0]) == last and u(s.node.value) == now]
+    from ..rules import uc
+    span = [s for s in sites(imap) if isinstance(s.node, ast.Assign) and uc(s.node.value) == f"{now} - {last}"]
+    upd = [s for s in sites(imap) if isinstance(s.node, ast.Assign) and cell_name(s.node.targets[0]) == last and u(s.node.value) == now]
     ok = len(nows) == 1 and len(span) == 1 and len(upd) == 1 and span[0].index < upd[0].index and not span[0].ctx.branch and not upd[0].ctx.branch
     rep.ob("T5-clock-readings", imap, "span = now - last; then last = now", ok,
            "the interval is not the time since the previous element (computed before `last` is moved forward)")
